@@ -4,7 +4,10 @@ From Akita Require Import Lib.Base Lib.Fifo Lib.Port Lib.Conn C10.Model.
 (** One executed schedule on a real DirectConnection with real ports: the port
     capacities (port k is named "P<k+1>", number k+1) and the actions in the order
     they really happened, each with what was observed. *)
-Record case := mk_case { c_caps : list (Z * Z); c_trace : list (action * obs) }.
+Record case := mk_case {
+  c_caps : list (Z * Z);
+  c_quiescent : bool;     (* the run went on until the engine's event queue was exhausted *)
+  c_trace : list (action * obs) }.
 
 Definition oN_eqb := opt_eqb N.eqb.
 Definition snap1_eqb (a b : Z * Z * option N * option N) : bool :=
@@ -58,6 +61,27 @@ Definition last_snap (t : list (action * obs)) : option (list (Z * Z * option N 
   | _ => None
   end.
 
+(** At quiescence (event queue exhausted) backpressure is the only reason a message may
+    still sit in an outgoing buffer: no port's outgoing head (identified by its ID among
+    the accepted sends) may have a plugged destination with room in its incoming buffer. *)
+Definition no_deliverable_left (caps : list (Z * Z)) (S : list msg)
+           (s : list (Z * Z * option N * option N)) : bool :=
+  forallb (fun snap =>
+    match snap with
+    | (_, _, _, Some id) =>
+        match find (fun m => (m_id m =? id)%N) S with
+        | Some m =>
+            let j := (N.to_nat (m_dst m) - 1)%nat in
+            if (m_dst m =? 0)%N then true else
+            match nth_error s j, nth_error caps j with
+            | Some (nj, _, _, _), Some (icap, _) => negb (nj <? icap)%Z   (* destination full *)
+            | _, _ => true                                               (* destination not plugged *)
+            end
+        | None => false                                                  (* a head nobody sent *)
+        end
+    | _ => true
+    end) s.
+
 Definition holds_on (c : case) : bool :=
   let t := c_trace c in
   let n := length (c_caps c) in
@@ -79,6 +103,7 @@ Definition holds_on (c : case) : bool :=
   | None => true
   | Some s =>
       (length s =? n)%nat &&
+      (if c_quiescent c then no_deliverable_left (c_caps c) S s else true) &&
       forallb (fun i =>
         match nth_error s i with
         | Some (ni, no, _, _) =>
